@@ -658,4 +658,60 @@ mod tests {
 #[allow(unused_imports, dead_code, missing_docs)]
 pub mod verif_hooks {
     use super::*;
+    use alloc::vec::Vec;
+
+    fn tv(t: &ThreeTags) -> Vec<u32> {
+        t.iter().map(|x| x.as_u32()).collect()
+    }
+
+    /// `tags_from_script_and_language` with the script given as a raw tag and the language
+    /// as the string handed to `Language::from_str` (None / empty string = no language).
+    pub fn tags(script: Option<u32>, lang: Option<&str>) -> (Vec<u32>, Vec<u32>) {
+        let l = lang.and_then(|s| Language::from_str(s).ok());
+        let (s, l) = tags_from_script_and_language(script.map(|t| Script(hb_tag_t(t))), l.as_ref());
+        (tv(&s), tv(&l))
+    }
+
+    /// `lang_cmp` as -1 / 0 / 1.
+    pub fn lang_cmp(a: &str, b: &str) -> i32 {
+        super::lang_cmp(a, b) as i32
+    }
+
+    /// `tags_from_language` on an empty tag vector (the string is lower-cased by `Language::from_str`).
+    pub fn tags_from_language(lang: &str) -> Option<Vec<u32>> {
+        let l = Language::from_str(lang).ok()?;
+        let mut t = ThreeTags::new();
+        super::tags_from_language(&l, &mut t);
+        Some(tv(&t))
+    }
+
+    /// `tag_table::tags_from_complex_language` on an empty tag vector (string taken as is).
+    pub fn tags_from_complex_language(lang: &str) -> (bool, Vec<u32>) {
+        let mut t = ThreeTags::new();
+        let r = tag_table::tags_from_complex_language(lang, &mut t);
+        (r, tv(&t))
+    }
+
+    /// `parse_private_use_subtag` with prefix "-hbsc" (which = 0, lower-casing) or "-hbot" (1, upper-casing).
+    pub fn parse_private_use_subtag(subtag: Option<&str>, which: u8) -> (bool, Vec<u32>) {
+        let mut t = ThreeTags::new();
+        let r = if which == 0 {
+            super::parse_private_use_subtag(subtag, "-hbsc", u8::to_ascii_lowercase, &mut t)
+        } else {
+            super::parse_private_use_subtag(subtag, "-hbot", u8::to_ascii_uppercase, &mut t)
+        };
+        (r, tv(&t))
+    }
+
+    /// `all_tags_from_script` on an empty tag vector.
+    pub fn all_tags_from_script(script: Option<u32>) -> Vec<u32> {
+        let mut t = ThreeTags::new();
+        super::all_tags_from_script(script.map(|x| Script(hb_tag_t(x))), &mut t);
+        tv(&t)
+    }
+
+    /// The compiled language table, in order.
+    pub fn lang_table() -> Vec<(&'static str, u32)> {
+        tag_table::OPEN_TYPE_LANGUAGES.iter().map(|r| (r.language, r.tag.as_u32())).collect()
+    }
 }
